@@ -189,6 +189,33 @@ claim("C10",
       "TLA+ specification, TLC-enumerated strata exercised on the real code, TLC trace validation of axis values, sign table and relational laws",
       "DESIGN.md section 4 C10")
 
+GEO_NOTE = ("Trusted: TLC, BigFix, MeridianArc (arctangent series + Helmert's series to n^5, remainder < 6e-9 m, validated once "
+            "against 40-digit quadrature); alpha's exact encodings and elementary auxiliaries (cos lat, sin sigma of outputs).")
+claim("C04",
+      "Geodesic.tla states what being the exact geodesic entails without transcendental ground truth; MC_Geodesic (TLC) enumerates "
+      "the case skeleton; ArcService (TLC) computes meridian distances. Trace_Geodesic (TLC) decides on real vincdir calls: EXACT "
+      "cases - lines along meridians between Pythagorean latitudes incl. across either pole (end latitude from the spec's own "
+      "meridian arcs, 1 mm; longitude; reverse azimuth 1e-8 deg) and along the equator (a x dlambda) on shipped and random "
+      "ellipsoids; RELATIONAL laws in every case of latitude band x 16 azimuth classes x distance decade 1 m..2e7 m x ellipsoid: "
+      "flow Direct(s1+s2) = Direct(s1);Direct(s2), reversal, reflection in the equator, mirror in the meridian, longitude shift "
+      "(incl. +-360), zero distance, angle-class arguments bit-identical.",
+      "NOT decided: the 1 mm accuracy of an OBLIQUE line against the exact geodesic (needs the geodesic integrals): there the laws "
+      "are necessary conditions; an error that scales all arcs of one geodesic consistently is caught on meridians/equator only. " + GEO_NOTE,
+      "TLA+ specification with exact meridian/equator oracles computed by TLC, TLC-enumerated case skeleton exercised on the real code, TLC trace validation",
+      "DESIGN.md section 4 C04")
+claim("C05",
+      "On Geodesic.tla: Trace_Geodesic (TLC) decides on real vincinv calls: EXACT cases - every ordered pair of Pythagorean latitudes "
+      "on one meridian (distance = difference of the spec's meridian arcs within 1 mm, azimuths 0/180) and equatorial pairs up to "
+      "178 deg (a x dlambda, azimuths 90/270) on shipped and random ellipsoids; OWN laws in every case of latitude band x latitude "
+      "band x longitude-difference class (same meridian, tiny, small, 90, 170, across +-180) x ellipsoid: swap symmetry (distance "
+      "1 mm, azimuths exchanged within what moves the far end by 1 mm), common longitude offset incl. +-360, coincident points -> 0; "
+      "CLOSURE: following the direct routine with the returned distance and azimuth arrives within 2 mm (+ the direct routine's own "
+      "1 mm and output rounding) and the reverse azimuth agrees, charged to C05 only when the direct routine is self-consistent on "
+      "that very line.",
+      "NOT decided: accuracy of oblique lines beyond closure with the direct routine; the iteration cap is not observable. " + GEO_NOTE,
+      "TLA+ specification with exact meridian/equator oracles, TLC-enumerated case skeleton exercised on the real code, TLC trace validation with guarded instrument",
+      "DESIGN.md section 4 C05")
+
 NOT_YET = "check not built yet in this session (work in progress; see DESIGN.md section 8 for build order)"
 
 
